@@ -210,10 +210,11 @@ PROPS["C09"] = dict(
 
 PROPS["C11"] = dict(
     level="other",
-    claim="All 33 specialisations of fixed_shape/fixed_dim/fixed_size/bounded_dim/bounded_size for view types derive every reported value only from the type of the view's own shape()/size() accessors (or its dst_shape_type/dst_size_type typedefs) or recursively from the same traits of operands: no literals, no value arithmetic other than the product of extents / operand bounds, never ::min for an upper bound and never ::max for an exact value. Because constant-index types carry their value in the type and clipped types clamp to max, 'reported = run time' resp. '>= run time' then holds by construction. Clipping events for particular run-time shapes are not decided.",
+    claim="All 33 specialisations of fixed_shape/fixed_dim/fixed_size/bounded_dim/bounded_size for view types derive every reported value only from the type of the view's own shape()/size() accessors (or its dst_shape_type/dst_size_type typedefs) or recursively from the same traits of operands: no literals, no value arithmetic other than the product of extents / operand bounds, never ::min for an upper bound and never ::max for an exact value. Because constant-index types carry their value in the type and clipped types clamp to max, 'reported = run time' resp. '>= run time' then holds by construction. Clipping events for particular run-time shapes are not decided. (E1, the view-level TUs of C03/C04/C08 in both array kinds) for each of ~150 instantiated view objects of stated shape: whatever fixed_shape / fixed_dim / fixed_size / bounded_dim / bounded_size report for the view's TYPE agrees with the object's shape (a fixed value equals it, a bound is not below it).",
     note=E2_NOTE,
     technique="static: custom libTooling extractor + provenance grammar over trait specialisations",
     e3=[dict(group="C11")],
+    e1=[dict(tu="c03g_views.cpp"), dict(tu="c03g_views_rt.cpp"), dict(tu="c04i_views.cpp"), dict(tu="c04i_views_rt.cpp"), dict(tu="c04j_views.cpp"), dict(tu="c04j_views_rt.cpp"), dict(tu="c08c_reduce_views.cpp"), dict(tu="c08c_reduce_views_rt.cpp")],
     e2=[dict(rule="R-TRAITPROV")],
     rule="E2: one instance per lambda body of a trait specialisation for view::decorator_t<...>; distinct by (file, line)",
     explanation="Static knowledge disagreeing with run-time objects needs a trait value that is not read from the run-time accessor's type; that is visible in the shape of the trait's definition.",
